@@ -576,6 +576,13 @@ func (b *TB) bin(op Op, x, y *Term) *Term {
 			if c == 1 {
 				return x
 			}
+			if c&(c-1) == 0 {
+				k := 0
+				for c>>uint(k) != 1 {
+					k++
+				}
+				return b.bin(OpShl, x, b.Const(w, uint64(k)))
+			}
 		case OpUDiv, OpSDiv:
 			if c == 1 {
 				return x
